@@ -4,7 +4,7 @@
 wt=$1; k=$2; shift 2
 cd $wt && git checkout -q -- . && git apply seed/$k/patch.diff || { echo "PATCH DOES NOT APPLY"; exit 1; }
 for c in "$@"; do
-  r=$(cd /verif && VERIF_REPO=$wt VERIF_EVIDENCE_DIR=/tmp/triage/evidence VERIF_REPLAY_DIR=/tmp/triage/replays ./check $c --tier quick 2>&1 | grep -E "VIOLATION|HARNESS|tier=" | head -2 | cut -c1-220)
+  r=$(cd ${VERIF_HOME:-/verif} && VERIF_REPO=$wt VERIF_EVIDENCE_DIR=/tmp/triage/evidence VERIF_REPLAY_DIR=/tmp/triage/replays ./check $c --tier quick 2>&1 | grep -E "VIOLATION|HARNESS|tier=" | head -2 | cut -c1-220)
   echo "--- $(basename $wt)/$k $c: $r"
 done
 cd $wt && git checkout -q -- .
